@@ -176,6 +176,20 @@ pub fn decode_script(a: u8, b: u8, bias: u8) -> [Step; 4] {
     out
 }
 
+/// Reported hardware parallelism of a case: 1, or more than one (mostly 16; 2 and 128 probe
+/// thresholds in the backoff arithmetic).
+pub fn parallelism_of(cfg1: u8) -> usize {
+    if cfg1 & 2 != 0 {
+        1
+    } else {
+        match (cfg1 >> 2) & 7 {
+            6 => 128,
+            7 => 2,
+            _ => 16,
+        }
+    }
+}
+
 #[derive(Clone, Copy, PartialEq, Eq, Debug, Hash)]
 pub struct Op {
     pub k: K,
@@ -330,7 +344,7 @@ impl Case {
         let nt = self.threads.len().clamp(p.threads.0, p.threads.1.max(p.threads.0));
         let cap = p.caps[(self.cfg[0] as usize * p.caps.len()) >> 8];
         let async_ctor = self.cfg[1] & 1 != 0;
-        let parallelism = if self.cfg[1] & 2 != 0 { 1 } else { 16 };
+        let parallelism = parallelism_of(self.cfg[1]);
         let pay = p.pays[(self.cfg[2] as usize * p.pays.len()) >> 8];
         let mut grants = Vec::new();
         for i in 0..nt {
